@@ -165,8 +165,9 @@ fn measure(plain: &tiny_skia::Pixmap, treated: &tiny_skia::Pixmap, outside: Opti
     // low-contrast outlines (3..8) at most the local variation; anti-aliased outlines (> 8) are rasteriser noise (see c16.rs)
     let (mut inc_smooth, mut inc_max_smooth, mut inc_edge_max) = (0usize, 0i32, 0i32);
     let mut inc_at = String::from("null");
-    let (mut out_bad, mut out_n) = (0usize, 0usize);
+    let (mut out_bad, mut out_n, mut out_faint) = (0usize, 0usize, 0usize);
     let mut out_at = String::from("null");
+    let mut faint_at = String::from("null");
     let (mut in_n, mut in_bad, mut in_max, mut in_soft, mut in_edge, mut in_edge_diff, mut in_edge_max) = (0usize, 0usize, 0u8, 0usize, 0usize, 0usize, 0u8);
     let mut in_at = String::from("null");
     let mut nonblank = 0usize;
@@ -215,11 +216,17 @@ fn measure(plain: &tiny_skia::Pixmap, treated: &tiny_skia::Pixmap, outside: Opti
             if let Some(out) = outside {
                 if out[i] {
                     out_n += 1;
-                    if d[o] != 0 || d[o + 1] != 0 || d[o + 2] != 0 || d[o + 3] != 0 {
+                    if d[o + 3] > 16 {
                         if out_bad == 0 {
                             out_at = format!("[{},{},{}]", x, y, d[o + 3]);
                         }
                         out_bad += 1;
+                    } else if d[o] != 0 || d[o + 1] != 0 || d[o + 2] != 0 || d[o + 3] != 0 {
+                        // sub-pixel slivers of clip geometry are sampled differently at the layer's integer shift: faint isolated pixels
+                        if out_faint == 0 {
+                            faint_at = format!("[{},{},{}]", x, y, d[o + 3]);
+                        }
+                        out_faint += 1;
                     }
                 }
             }
@@ -253,8 +260,8 @@ fn measure(plain: &tiny_skia::Pixmap, treated: &tiny_skia::Pixmap, outside: Opti
     }
     format!(
         "{{\"w\":{},\"h\":{},\"nonblank\":{},\"changed\":{},\"inc\":{{\"n\":{},\"max\":{},\"edge_max\":{},\"at\":{}}},\
-         \"out\":{{\"n\":{},\"bad\":{},\"at\":{}}},\"in\":{{\"n\":{},\"bad\":{},\"max\":{},\"nsoft\":{},\"nedge\":{},\"nedge_diff\":{},\"max_edge\":{},\"at\":{}}}}}",
-        w, h, nonblank, changed, inc_smooth, inc_max_smooth, inc_edge_max, inc_at, out_n, out_bad, out_at, in_n, in_bad, in_max, in_soft, in_edge, in_edge_diff, in_edge_max, in_at
+         \"out\":{{\"n\":{},\"bad\":{},\"at\":{},\"faint\":{},\"faint_at\":{}}},\"in\":{{\"n\":{},\"bad\":{},\"max\":{},\"nsoft\":{},\"nedge\":{},\"nedge_diff\":{},\"max_edge\":{},\"at\":{}}}}}",
+        w, h, nonblank, changed, inc_smooth, inc_max_smooth, inc_edge_max, inc_at, out_n, out_bad, out_at, out_faint, faint_at, in_n, in_bad, in_max, in_soft, in_edge, in_edge_diff, in_edge_max, in_at
     )
 }
 
